@@ -9,6 +9,37 @@ from formak.exceptions import ModelFitError
 from formak import ui_state_machine as sm
 
 
+class RecordingGridSearch(sm.GridSearchCV):
+    """keeps the last fitted search so that the harness can read the parameter points and their scores"""
+    last = None
+
+    def fit(self, *a, **kw):
+        r = super().fit(*a, **kw)
+        RecordingGridSearch.last = self
+        return r
+
+
+sm.GridSearchCV = RecordingGridSearch
+
+
+def independent_scores(search, data, model, a, x):
+    """every parameter point of the grid scored again by an adapter CONSTRUCTED with exactly those hyper-parameters
+    (python.Config(...) passed to Create, no set_params / clone involved), same splitter and scorer"""
+    from sklearn.model_selection import cross_val_score
+    rows = []
+    for params, grid_score in zip(search.cv_results_["params"], search.cv_results_["mean_test_score"]):
+        cfg = python.Config(innovation_filtering=params["innovation_filtering"], max_dt_sec=params["max_dt_sec"])
+        est = python.SklearnEKFAdapter.Create(symbolic_model=model, process_noise=params["process_noise"], sensor_models=params["sensor_models"],
+                                              sensor_noises=params["sensor_noises"], calibration_map=params["calibration_map"], config=cfg)
+        try:
+            sc = float(np.mean(cross_val_score(est, data, cv=search.cv, scoring=search.scoring, error_score="raise")))
+        except Exception as e:  # noqa
+            sc = "raised:" + type(e).__name__
+        rows.append({"innovation_filtering": params["innovation_filtering"], "max_dt_sec": params["max_dt_sec"],
+                     "grid_score": float(grid_score), "independent_score": sc})
+    return rows
+
+
 def small_model():
     dt, x, v, a = Symbol("dt"), Symbol("x"), Symbol("v"), Symbol("a")
     return ui.Model(dt=dt, state={x, v}, control={a}, state_model={x: x + dt * v, v: v + dt * a}), (x, v, a)
@@ -87,7 +118,10 @@ def main():
             st = sm.DesignManager(name="r").symbolic_model(model=model).fit_model(parameter_space=sp, data=data)
             ekf = st.export_python()
             est = st.fit_estimator
+            search = RecordingGridSearch.last
             out["runs"].append({"history": [h.name for h in st.history()],
+                                "best_params": {"innovation_filtering": search.best_params_["innovation_filtering"], "max_dt_sec": search.best_params_["max_dt_sec"]},
+                                "candidates": independent_scores(search, data, model, a, x),
                                 "exported": {"innovation_filtering": ekf.config.innovation_filtering, "max_dt_sec": ekf.config.max_dt_sec,
                                              "process_noise": float(ekf.process_noise[0, 0]), "sensor_noise": float(ekf.sensor_noises["pos"].data[0, 0])},
                                 "selected": {"innovation_filtering": est.config.innovation_filtering, "max_dt_sec": est.config.max_dt_sec,
